@@ -72,6 +72,8 @@ def rule_R2_chars_collect(text, mask, ctx):
     receiver; we rewrite the suffix only: `.chars().collect()` -> `.vchars()` is not valid Rust
     either, so the rule is: `X.chars().collect()` where X is a path/ident/field expr."""
     eds = []
+    for m in re.finditer(r'([A-Za-z_][\w.]*)\.to_string\(\)\.chars\(\)\.collect\(\)', mask):
+        eds.append((m.start(), m.end(), 'vchars(&' + m.group(1) + '.vto_string())', 'R2'))
     for m in re.finditer(r'([A-Za-z_][\w.]*)\.chars\(\)\.collect\(\)', mask):
         eds.append((m.start(), m.end(), 'vchars(&' + m.group(1) + ')', 'R2'))
     return eds
